@@ -43,7 +43,7 @@ func init() {
 		},
 		Rule: "boundary: records of 2-3 kernel events (<=4 records each) interleaved in a taped merge order that keeps per-event order, EOE- and PROCTITLE-terminated groups and groups with neither (complete only by the reassembler's time-out), empty lines, arriving after a taped quiet period of 0-3 simulated seconds, fed to the real parseAuditLogs + reassembler + reassembler callback around a counting correlator; " +
 			"read-faults: audit streams for bound sessions through the real Read with one fault enumerated within each group of runs: malformed line at position p, write error from the k-th event on or at the k-th event only, invalid login {pid 0, nil source, empty credential} at a taped point (for a PID nothing is known about, or for a session that is already waiting for its login), " +
-			"unparsable PID in a LOGIN record, two failures in one run, no fault (half of these with the records of one compound event arriving in two bursts 0.3-0.8 reassembler time-outs apart around a record of another event), a single transient write failure at the k-th event of a hold-queue flush; non-trivial = records of different events were interleaved (boundary) or the fault fired before the end of the stream (faults); distinct = distinct (stream hash, fault, position, schedule hash)",
+			"unparsable PID in a LOGIN record (letters, 0x.., 0b.., 0o.., digit separators, exponent), two failures in one run, no fault (half of these with the records of one compound event arriving in two bursts 0.3-0.8 reassembler time-outs apart around a record of another event), a single transient write failure at the k-th event of a hold-queue flush; non-trivial = records of different events were interleaved (boundary) or the fault fired before the end of the stream (faults); distinct = distinct (stream hash, fault, position, schedule hash)",
 		Quick: 8000, Thorough: 200000,
 	})
 }
@@ -472,13 +472,29 @@ func scnC15Faults(rc *RunCtx) {
 		pos = t.Choose(len(lines)+1, "pos")
 		badLine = []string{"type=SYSCALL this is not an audit record", "garbage", "type=USER_START msg=audit(xx): broken", "audit(1.1:1): no type",
 			" ", "\t", "\r", "   \t ", "\x00", "type="}[t.Choose(10, "bad")]
-		lines = append(lines[:pos], append([]string{badLine}, lines[pos:]...)...)
 		wantEvents = 0
 		for i, end := range evEnd {
 			if end <= pos {
 				wantEvents = i + 1
 			}
 		}
+		// the records of a group that were received before the bad line were parsed: they, too,
+		// reach the correlator (the reassembler is flushed when the processor stops); counted
+		// when the received part carries the session (it is then written as a UserAction)
+		if wantEvents < len(evs) && fault == "malformed-line" {
+			start := 0
+			if wantEvents > 0 {
+				start = evEnd[wantEvents-1]
+			}
+			for _, l := range lines[start:pos] {
+				if strings.Contains(l, " ses=410 ") || strings.HasSuffix(l, " ses=410") {
+					wantEvents++
+					rc.Sim.Count("c15.partial_group_before_fault")
+					break
+				}
+			}
+		}
+		lines = append(lines[:pos], append([]string{badLine}, lines[pos:]...)...)
 		rc.Sim.Count("line.malformed_audit")
 	case "write-error", "write-error-once":
 		// persistent (every write from the k-th on fails) or a single failing write
@@ -488,7 +504,9 @@ func scnC15Faults(rc *RunCtx) {
 	case "bad-pid-in-login-record":
 		// a second session whose LOGIN record has an unparsable PID
 		bad := k.Login("411", 1, 1001)
-		bad.Lines[0] = strings.Replace(bad.Lines[0], "pid=1 ", "pid=zzz ", 1)
+		// not a decimal number: letters, or what only a "base 0" parser would accept
+		badPID := []string{"zzz", "0x61af", "0b101", "0o17", "25_007", "1e3"}[t.Choose(6, "badpid")]
+		bad.Lines[0] = strings.Replace(bad.Lines[0], "pid=1 ", "pid="+badPID+" ", 1)
 		pos = t.Choose(len(evEnd), "pos")
 		lines = append(lines[:evEnd[pos]], append([]string{bad.Lines[0]}, lines[evEnd[pos]:]...)...)
 		wantEvents = pos + 1
